@@ -101,8 +101,10 @@ func fillMessage(m protoreflect.Message, r *rng, level int64, depth int, mutated
 				case name == "Key" || name == "Keys" || strings.Contains(name, "Key"):
 					switch {
 					case int64(r.intn(6)) < level && r.chance(1, 3):
-						s = strings.Repeat("K", 70000)
-						*mutated = append(*mutated, name+"=70kB")
+						// around the limit of the storage format's 16-bit key length: 65535 is the longest legal key
+						n := []int{70000, 65536, 65535, 65537, 65536}[r.intn(5)]
+						s = strings.Repeat("K", n)
+						*mutated = append(*mutated, fmt.Sprintf("%s=%dB", name, n))
 					case int64(r.intn(6)) < level:
 						s = ""
 						*mutated = append(*mutated, name+"=empty")
@@ -432,6 +434,26 @@ func runC26(t *testing.T, c Case) (res Result) {
 		}
 		if cls, det := compareSwamp(got, keep); cls != "" && cls != "record_resurrected" {
 			r := violation("stored_data_changed_after_malformed_traffic_"+cls, "after restart: %s", det)
+			v = &r
+			return
+		}
+		// the swamps the generated requests were aimed at must still load: a request that was accepted (or rejected)
+		// must not leave a file behind that the engine cannot read any more - that would take every record of that
+		// swamp with it, well-formed ones included
+		for _, sw := range []string{"verif/per/keep", "verif/per/other"} {
+			if ex, _ := cl2.isSwampExist(sw); ex {
+				cl2.getAll(sw)
+			}
+			for _, sub := range []string{"cannot load index from swamp file", "cannot open swamp file for reading", "cannot decode treasure"} {
+				if e := srv2.logs.find(sub); e != "" {
+					r := violation("swamp_unloadable_after_malformed_traffic", "after restart %s does not load any more: %s", sw, oneLine(e, 300))
+					v = &r
+					return
+				}
+			}
+		}
+		if cl2.hung != "" {
+			r := violation("request_never_returns", "%s after restart", cl2.hung)
 			v = &r
 			return
 		}
